@@ -21,6 +21,10 @@ CLAIMED = {
  "C17": ("Seeded histories of shard reports, removals and reloads against the real ReplicateMeteImpl over the real etcd / MySQL replicate stores (simulated servers) and an in-memory store; memory, store and the union of reports must agree after every step and readiness must equal union == targets.", "4 C17", NOTE_ST),
  "C20": ("Two rigs, alternated: (R) create/drop collection/partition API events produced by the reader are checked for replication stamp, task and source operation time under scheduler-ordered barrier wake-ups; (WD) every op-message kind and API event through the real ChannelWriter must yield exactly one downstream request of the right kind with the source's identity fields (index, field, partition lists minus dropped members, user/role/privilege, schema/shards/consistency/properties), the replication mark and the source operation time; malformed packs are rejected without a downstream call.", "4 C20", NOTE_R + " Rig WD: see C08."),
 }
+NOTE_S = "Trusted base: SimEtcd/SimSQL (metadata and source catalog), SimMQ (dispatcher model), SimSDK (downstream Milvus behind the SDK client interface), the history generator playing rootcoord; one OS process per service incarnation, the external world survives a crash in a state file; schedules and fault placements are sampled, not enumerated."
+CLAIMED.update({
+ "C10": ("Seeded operator sequences (create/pause/resume/delete over every specification shape, name mappings, user-role flag) against the whole service with store / downstream-query faults at any parked call and a crash+restart: after every answered request and after the reload, over a finite universe of (database, collection) names, at most one persisted task per downstream selects a collection, stream selection equals DDL-message selection, every task selects its specification minus its recorded exclusions, rejected creates leave the bookkeeping untouched, and after delete / failed create / restart the bookkeeping equals what the persisted tasks imply.", "4 C10", NOTE_S),
+})
 EXTRA = {}
 try:
     from manifest_extra import EXTRA as E2
